@@ -94,6 +94,7 @@ class Interp:
         self.config = config or {}
         self.aliases = []
         self.lambdas = {}
+        self.opaque = None     # predicate(Func) -> keep the call opaque instead of inlining
         self.modconst = {}
         self.frames = {}
         self.lpstore = {}      # id -> current value of a mutable LpAffineExpression object (PuLP's += is in place)
@@ -549,6 +550,10 @@ class Interp:
         return obj
 
     def inline(self, target, recv, args, kw, fr, n):
+        if self.opaque is not None and self.opaque(target):
+            rv = CALL(A(recv if recv is not None else S('<module>'), target.name), args, kw)
+            self.emit(Eff('callo', fr.func, n, target=target, args=tuple(args), ret=rv))
+            return rv
         if self.depth >= MAX_INLINE or target in self.stack:
             self.unknown.append(('inline-bound', target.where, '%s:%d' % (fr.func.relpath, n.lineno)))
             return TOP('inline-bound ' + target.qualname)
@@ -594,6 +599,9 @@ class Interp:
             self.depth -= 1
             self.sink = old
         rv = self.retval(fr2)
+        if rv == TOP('return-in-loop'):
+            # a search / comparison loop with early returns: keep the call opaque (callee identity and arguments stay visible)
+            rv = CALL(A(recv if recv is not None else S('<module>'), target.name), args, kw)
         self.emit(Eff('call', fr.func, n, target=target, body=body, args=tuple(args), ret=rv, returns=fr2.returns))
         return rv
 
